@@ -45,6 +45,15 @@ rewriting run-ops too, the binding scenarios rewrite after the built-in agent ha
 what the CALLER passed to run(): hash, cache identity and verdict expectations never come from an object an
 agent was handed.
 
+Overlapping requests on one loop object: every run() call has its own Frame (request + verdicts as the caller passed
+them; the stub agents log into the frame of the call they are answering, per thread, innermost first).  (a) engine D,
+re-entrant: the executor / assessor / both / the on_block-on_permit callback of a request in flight submit a new, an
+earlier (cached) or the same request with the opposite verdicts through the same loop, x base table x options; inner,
+outer and all later repeats are judged by the normal oracle; engine A has a nested run-op too.  (b) engine C
+(mc/sched.py, CoopLocks): 2 threads x 1 request each, different prompts, opposite verdicts, every schedule up to the
+preemption bound, then both prompts repeated sequentially.  Only the statement's clauses are asserted per request
+(no linearizability, no counters); a cached reply may repeat the latest original or one whose call overlapped it.
+
 Oracle (one-directional, from the statement): not blocked => reference table satisfied; token => assessor
 verdict PERMIT, hash is a sha256 prefix (>=16 hex) of exactly this prompt, issuer == assessor name;
 cached reply == original reply (blocked, success, action, token hash+issuer) of the same prompt.
